@@ -145,6 +145,10 @@ func exprText(e ast.Expression) string {
 		return "call:" + x.Name
 	case *ast.CastExpr:
 		return exprText(x.Lhs) + " als " + x.TargetType.String()
+	case *ast.Indexing:
+		return exprText(x.Lhs) + " an der Stelle " + exprText(x.Index)
+	case *ast.FieldAccess:
+		return x.Field.Literal.Literal + " von " + exprText(x.Rhs)
 	}
 	return e.String()
 }
